@@ -923,6 +923,7 @@ func (y *IfFeature) Evaluate(enabled map[string]*Feature) (bool, error) {
 	e := &ifFeatureEval{
 		features: enabled,
 		expr:     y.expr,
+		parent:   y.parent,
 	}
 	b := e.orExpr()
 	if e.lastErr == nil && e.peek() != "" {
@@ -939,6 +940,7 @@ func (y *IfFeature) Evaluate(enabled map[string]*Feature) (bool, error) {
 //	if-feature-factor = "not" sep if-feature-factor / "(" if-feature-expr ")" / identifier
 type ifFeatureEval struct {
 	features map[string]*Feature
+	parent   Meta
 	expr     string
 	pos      int
 	lastErr  error
@@ -993,8 +995,37 @@ func (y *ifFeatureEval) factor() bool {
 		y.fail()
 		return false
 	}
-	_, found := y.features[tok]
+	// identifier-ref-arg: [prefix ":"] identifier
+	name := tok
+	if i := strings.IndexByte(tok, ':'); i >= 0 {
+		if !y.knownPrefix(tok[:i]) {
+			y.fail()
+			return false
+		}
+		name = tok[i+1:]
+	}
+	_, found := y.features[name]
 	return found
+}
+
+// knownPrefix is true for the prefix of the module the expression is written in
+// and for the prefixes of its imports
+func (y *ifFeatureEval) knownPrefix(prefix string) bool {
+	d, valid := y.parent.(Definition)
+	if !valid {
+		return true
+	}
+	for _, m := range []*Module{OriginalModule(d), RootModule(d)} {
+		if m.Prefix() == prefix || (m.belongsTo != nil && m.belongsTo.prefix == prefix) {
+			return true
+		}
+		for _, i := range m.imports {
+			if i.prefix == prefix {
+				return true
+			}
+		}
+	}
+	return false
 }
 
 func (y *ifFeatureEval) end() bool {
